@@ -271,17 +271,24 @@ class SendEventResponse(StreamingResponse[ServerSentEvent]):
                     yield b": ping\n\n"
         finally:
             should_stop = True
-            # Keep draining until the relay thread has finished: its pending
-            # q.put() calls (next item, final None) must never block, otherwise
-            # waiting for the thread below would deadlock.
-            while not push_future.done():
+            # A relay that is still waiting for a free pool thread is simply
+            # cancelled. One that runs cannot be cancelled: keep draining until
+            # it has finished, its pending q.put() calls (next item, final
+            # None) must never block, otherwise waiting for it would deadlock.
+            cancelled = push_future.cancel()
+            while not (cancelled or push_future.done()):
                 try:
                     q.get(timeout=0.01)
                 except queue.Empty:
                     pass
             while not q.empty():
                 q.get_nowait()  # pragma: no cover
-            if not push_future.cancel():
+            if cancelled:
+                # the relay never ran, so it cannot release the iterable
+                g = self.iterable
+                if hasattr(g, "close"):
+                    g.close()  # type: ignore
+            else:
                 exc = push_future.exception()
                 if exc is not None:
                     raise exc
